@@ -9,6 +9,7 @@ cd $wt || exit 2
 export CARGO_NET_OFFLINE=true
 git diff -- src > $out/patch.diff
 cp tests/seeded_demo.rs $out/seeded_demo.rs
+[ -d tests/seeded_demo_cases ] && cp -r tests/seeded_demo_cases $out/seeded_demo_cases
 [ -f SEEDED.md ] && cp SEEDED.md $out/SEEDED.md
 # (1) suite with the change (demo excluded by moving it aside)
 mv tests/seeded_demo.rs /tmp/seeded_demo_$name.rs
